@@ -362,8 +362,13 @@ def oracle(case, ops, obs):
                 ok = res[1] == target
             if ok and target < 0:
                 # no byte of the source has a negative offset: this seek cannot be honoured
-                return fail(NEG_KEY, "seek(%d, %s) at op %d reports success for offset %d (buffer.position is now %d)"
-                            % (p, ("START", "CURRENT", "END")[wh], i, target, ob["pos"]), i)
+                msg = "seek(%d, %s) at op %d reports success for offset %d (buffer.position is now %d)" % (
+                    p, ("START", "CURRENT", "END")[wh], i, target, ob["pos"])
+                if ob["pos"] < 0:
+                    return fail(NEG_KEY, msg, i)           # the buffer itself accepted a negative position
+                if kind == "sio":
+                    return fail(SIO_KEY, msg, i)           # the adapter says True, the wrapped reader did not move there
+                return fail("C17:%s:seek-true-for-negative-offset" % name, msg, i)
             if ok:
                 if taint is None and kind in ("srw", "ssw") and prev_pos != c:
                     taint = (KNOWN_BYPASS, "seek(%d) at op %d reported success while buffer.position (%d) was stale "
